@@ -1,7 +1,7 @@
 """Bounded exhaustive check of SimpleCookieJar.add / get against the statement of C20 (small alphabets, histories up to 3)."""
 import itertools
 
-NAMES, VALUES = ["a", "b"], ["1", "2"]
+NAMES, VALUES = ["a", "b", "a1"], ["1", "2"]  # "a1": a name that extends another by a character below "="
 DOMAINS = [None, "x.y", "X.Y", ".x.y", ".X.Y", ".x.Y", "y", "a.x.y", "X.y"]
 HOSTS = ["x.y", "a.x.y", "ax.y", "xx.y", "y", "x.y.z", "X.Y", "A.x.Y", "b.a.x.y", ""]
 
@@ -27,7 +27,18 @@ def spec_get(view, host):
         if covers(d, h):
             for k, v in ck.items():
                 items.append(f"{k}={v}")
-    return "; ".join(sorted(items))
+    return items
+
+
+def same_answer(got, items):
+    """the Cookie text is the expected cookies, name-sorted (cookies of equal name - one per covering domain - in either order)."""
+    if not items:
+        return got == ""
+    parts = got.split("; ")
+    if sorted(parts) != sorted(items):
+        return False
+    names = [p.split("=", 1)[0] for p in parts]
+    return names == sorted(names)
 
 
 def set_cookie_header(cookies, domain):
@@ -48,13 +59,42 @@ def run_history(hist):
         spec_add(view, {k: v}, dom)
     for host in HOSTS:
         got, want = jar.get(host), spec_get(view, host)
-        if got != want:
-            return dict(history=[list(x) for x in hist], host=host, got=got, expected=want)
+        if not same_answer(got, want or []):
+            return dict(history=[list(x) for x in hist], host=host, got=got, expected="name-sorted " + repr(want))
     return None
+
+
+def check_header():
+    """the Cookie line of the real request: the jar's answer for the host followed by the caller's cookie, whatever the caller's
+    cookie looks like (same name as a stored one, a substring of the jar's text, ...)."""
+    import websocket._handshake as hs
+    from websocket._cookiejar import SimpleCookieJar
+    probs = []
+    saved = hs.CookieJar
+    try:
+        for stored, caller in ((["sid=1; Domain=x.y"], "sid=9"), (["sid=1; Domain=x.y", "t=2; Domain=x.y"], "t=2"), (["aa=1; Domain=x.y"], "a=1"),
+                               (["sid=1; Domain=x.y"], None), ([], "sid=9"), (["sid=1; Domain=other.z"], "k=v")):
+            jar = SimpleCookieJar()
+            for h in stored:
+                jar.add(h)
+            hs.CookieJar = jar
+            opts = {} if caller is None else {"cookie": caller}
+            headers, key = hs._get_handshake_headers("/", "ws://x.y/", "x.y", 80, opts)
+            line = [h for h in headers if h.lower().startswith("cookie:")]
+            want = "; ".join(x for x in (jar.get("x.y"), caller) if x)
+            got = line[0][len("Cookie: "):] if line else ""
+            if got != want or len(line) > 1:
+                probs.append(f"stored {stored}, cookie option {caller!r}: Cookie header {got!r}, expected {want!r}")
+    finally:
+        hs.CookieJar = saved
+    return probs
 
 
 def search(max_len, limit=None):
     n = 0
+    p = check_header()
+    if p:
+        return dict(found=True, witness=dict(history=[["header-assembly", p[0], None]], kind="header"), tried=1)
     steps = [(k, v, d) for k in NAMES for v in VALUES for d in DOMAINS]
     for ln in range(1, max_len + 1):
         for hist in itertools.product(steps, repeat=ln):
@@ -85,6 +125,8 @@ def concretise(res, tier, seed):
 
 
 def replay_witness(w):
+    if w.get("kind") == "header":
+        return bool(check_header())
     return run_history([tuple(x) for x in w["history"]]) is not None
 
 
